@@ -76,7 +76,30 @@ End Heapq.
 (* ------------------------------------------------------------------ *)
 (* scheduling programs *)
 Inductive outcome := RetNone | RetVal | RaiseE (e : Z) | RetFut (f : nat).
-Inductive tform := FAbs | FLater | FDelta | FCallAt.
+(* FAbs: add_timeout(number)   FLater: call_later(delay)   FCallAt: call_at(number)
+   FDelta days: add_timeout(datetime.timedelta(days=days, seconds=t ticks)) *)
+Inductive tform := FAbs | FLater | FDelta (days : Z) | FCallAt.
+
+(* datetime.timedelta(days, seconds, microseconds) in exact integer microseconds: the constructor's
+   normalisation (0 <= seconds < 86400, 0 <= microseconds < 10^6, days unbounded, possibly negative) and
+   total_seconds() = ((days*86400 + seconds)*10^6 + microseconds) / 10^6 *)
+Definition td_normalize (days secs us : Z) : Z * Z * Z :=
+  let s1 := secs + us / 1000000 in
+  (days + s1 / 86400, s1 mod 86400, us mod 1000000).
+Definition td_total_us (n : Z * Z * Z) : Z :=
+  let '(d, s, us) := n in (d * 86400 + s) * 1000000 + us.
+Definition TICK_US : Z := 250000.          (* one tick = 0.25 s *)
+Definition DAY_TICKS : Z := 345600.
+(* IOLoop.add_timeout(timedelta): self.time() + deadline.total_seconds(); the offset in ticks *)
+Definition delta_ticks (days t : Z) : Z := td_total_us (td_normalize days 0 (t * TICK_US)) / TICK_US.
+
+(* the absolute deadline (ticks) each form of the call asks for, at clock [now] *)
+Definition deadline_of (fm : tform) (t now : Z) : Z :=
+  match fm with
+  | FAbs | FCallAt => t
+  | FLater => now + t
+  | FDelta days => now + delta_ticks days t
+  end.
 
 Inductive op :=
 | OCb (b : body)                       (* io_loop.add_callback(b) *)
@@ -237,7 +260,7 @@ Definition exec_op (o : op) (s : st) : st * bool :=
       (push_ready [HUser i KCb b] (emit (ESc i) (bump s)), false)
   | OTo fm t b =>
       let i := next s in
-      let dl := match fm with FAbs | FCallAt => t | FLater | FDelta => now s + t end in
+      let dl := deadline_of fm t (now s) in
       (add_handle i (sched_timer (HUser i (KTo dl) b) (emit (ESt i dl) (bump s))), false)
   | ORm k =>
       match nth_error (handles s) k with
@@ -441,6 +464,7 @@ Fixpoint body_size (b : body) : nat :=
         | [] => O
         | o :: l' =>
             (match o with
+             | OTo (FDelta d) _ b' => S (body_size b' + Z.to_nat (Z.abs d))   (* one idle iteration per day: 24 h select clamp *)
              | OCb b' | OTo _ _ b' | OAf _ b' => S (body_size b')
              | _ => 1
              end + go l')%nat
